@@ -104,6 +104,7 @@ type Runtime struct {
 	FaultsFired  map[string]int
 	GenCalls     int
 	derived      map[string]int
+	derivedOf    []int
 	FilterCalls  int
 	NilStructOps map[int][]int // op -> parties that returned a nil struct during it
 	InstErr      error
@@ -407,6 +408,7 @@ func (rt *Runtime) makeGen(ai int, g *Gen) argmapper.ConverterGenFunc {
 				p.Out[0].Sub = v.Subtype
 			}
 			rt.Parties = append(rt.Parties, p)
+			rt.derivedOf = append(rt.derivedOf, g.Party)
 			rt.execs = append(rt.execs, 0)
 			rt.funcs = append(rt.funcs, nil)
 			rt.raw = append(rt.raw, nil)
@@ -1038,7 +1040,13 @@ func (rt *Runtime) prov(id uint64, depth int) string {
 	if tk.Kind == TokSupplied {
 		return fmt.Sprintf("A%d", tk.Arg)
 	}
-	s := fmt.Sprintf("P%d.%s(", tk.Party, tk.Label)
+	// generator-derived parties are named after their template so that the
+	// rendering does not depend on how many were derived before
+	pn := fmt.Sprintf("P%d", tk.Party)
+	if d := tk.Party - len(rt.W.Parties); d >= 0 && d < len(rt.derivedOf) {
+		pn = fmt.Sprintf("P%d'", rt.derivedOf[d])
+	}
+	s := fmt.Sprintf("%s.%s(", pn, tk.Label)
 	for i, in := range tk.Inputs {
 		if i > 0 {
 			s += ","
